@@ -1,12 +1,14 @@
 #!/bin/bash
 # Soundness fixtures: trees on which the property HOLDS although they look suspicious to the
 # machinery. Each patch under seeded/_sound/<name>/ is applied to a scratch worktree of /repo;
-# the repository's suite must pass and the property's check must exit 0 without a VIOLATION line.
+# (optional arguments: fixture names to run) the repository's suite must pass and the property's check must exit 0 without a VIOLATION line.
 export GOFLAGS=-mod=mod GOPROXY=off GOSUMDB=off GOTOOLCHAIN=local
 cd "$(dirname "$0")/.."
 rc=0
 for d in seeded/_sound/*/; do
   name=$(basename "$d")
+  [ -f "$d/meta.json" ] || continue
+  if [ $# -gt 0 ]; then case " $* " in *" $name "*) ;; *) continue;; esac; fi
   prop=$(python3 -c "import json,sys;print(json.load(open(sys.argv[1]))['property'])" "$d/meta.json")
   wt=$(mktemp -d /tmp/sound-XXXXXX); rmdir "$wt"
   git -C /repo worktree add -q --detach "$wt" HEAD
